@@ -30,6 +30,8 @@ pub fn total<F: Family>(b: &[u8], ctx: &mut Ctx) -> CaseResult {
     let _ = block_on(F::header_decode_async(&mut rd));
     let mut rd: &[u8] = b;
     let _ = block_on(mqtt_proto::decode_raw_header(&mut rd));
+    // the public per-type body decoders on the bytes after the header
+    let _ = F::body_level_decode(b);
     let p1 = fam::dec_poll::<F>(b);
     if b.len() <= 2048 {
         // one byte per read, Pending before every read, future dropped at every Pending
